@@ -221,7 +221,7 @@ PROPS = {
                            'C09_uncounted: a cordoned node is in none of the working lists (so not in the capacity sum); C09_alloc_irrelevant: outside dry mode the complete result of a group scan (decision, every call, new controller and provider state) is the same whatever allocatable CPU/memory the cordoned nodes report. Tie: hist correspondence on node-targeting calls + monitor. '
                            'C09_cache_uncounted / C09_lists_uncounted: the remembered node size and the working lists are the same whether or not cordoned nodes are listed (defect F8 repaired in 36808c6; regression scenario in corpus/C09).',
                 level_note=LEVEL_NOTE),
-    'C10': dict(level='proof', module='EscProofs.P.C10', streams=hist('C10', focus='annot', extra=[('churn', 150, 6000, 600), ('up', 150, 6000, 600), BIG]),
+    'C10': dict(level='proof', module='EscProofs.P.C10', streams=hist('C10', focus='annot', extra=[('churn', 150, 6000, 600), ('up', 150, 6000, 600), ('rotate', 150, 5000, 600), BIG]),
                 aspects=['hist:removals'], monitors=['C10'],
                 theorems=['Esc.P.C10_protected', 'Esc.P.C10_history', 'Esc.P.C10_empty_value_unprotected', 'Esc.P.C10_still_counted',
                           'Esc.P.C10_capacity_unchanged', 'Esc.P.C10_no_holdback'],
